@@ -20,6 +20,12 @@ M = [
  ('RandModels', {'W': 3, 'NMAX': 300, 'MMAX': 10}, None, ['accept_equal', 'chunk_floor']),
  ('CxxStreamModel', {'EMIT': 'FALSE', 'L': 2}, None, ['justlen_no_sign', 'upper_ignored', 'internal_as_right', 'showbase_always']),
  ('FatInit',   {'Threads': '{1, 2}', 'NF': 2, 'NT': 2, 'Ops': 2}, ('AlwaysDecided', 'SlotsSane', 'FinalVector', 'FlagImpliesInstalled'), ['flag_first']),
+ # MpfAddSub (C13/C04): row A = every variant visible at W=2, prec field 2; row B = W=3 with operands up to prec+3 limbs (the truncation inside "cancellation"); row C = prec field 3 (a gap between u and v inside the precision)
+ ('MpfAddSub', {'W': 2, 'PRECS': '{2}', 'LIMBS': '{0,1,3}', 'Funs': '{"add","sub"}', 'Aliases': '{"none","ru","rv","ruv"}', 'USigns': '{1}', 'XS': 2, 'Checker': '"int"'}, ('Correct',),
+   ['no_exp_reset_on_zero', 'exp_not_decremented', 'copy_low_limbs', 'no_negate_on_swap', 'no_negate_on_limb_swap', 'no_normalize', 'normalize_keeps_exp', 'special_cy_inverted', 'no_borrow_from_low',
+    'no_close_operands_path', 'sub_prec_plus2', 'set_no_truncate', 'add_prec_plus1', 'add_copy_low_limbs', 'add_v_not_truncated', 'add_direct_rp', 'add_no_carry_exp']),
+ ('MpfAddSub', {'W': 3, 'PRECS': '{2}', 'LIMBS': '{0,1,7}', 'Funs': '{"sub"}', 'Aliases': '{"none"}', 'USigns': '{1}', 'XS': 3, 'Checker': '"int"'}, ('Correct',), ['truncate_before_cancel']),
+ ('MpfAddSub', {'W': 2, 'PRECS': '{3}', 'LIMBS': '{0,3}', 'Funs': '{"add","sub"}', 'Aliases': '{"none"}', 'USigns': '{1}', 'XS': 2, 'Checker': '"int"'}, ('Correct',), ['add_no_zero_gap', 'gap_zero_fill']),
 ]
 def run(mod, consts, inv, variant):
     d = tempfile.mkdtemp(prefix='mv-')
